@@ -8,21 +8,24 @@ Open Scope N_scope.
 
 (* `covered D t c res q pk` (RoundProofs.v): key pk is not forgotten — if live and Pending/Refreshing it is
    ahead of the change cursor c or an operation result for exactly that version awaits its status commit;
-   if live and Error a retry item for exactly that revision is queued (or its result awaits commit); if
-   deleted the deletion is ahead of the cursor, has a queued delete retry, or was Delete()d (D). *)
+   if live and Error an update retry is queued for the key or a retry result awaits commit (whatever the
+   revision: fix 8844901 applies a retry result to an object still carrying the Error status); if deleted
+   the deletion is ahead of the cursor, has a queued delete retry, or was Delete()d (D). *)
 
 (* the status commit keeps every key covered and leaves no pending results behind *)
 Theorem C14_commit_keeps_cover : forall D c now res t q t' q',
   keyed t -> uniq q -> NoDup (map (fun r => o_pk (r_obj r)) res) ->
+  (forall r, In r res -> r_orig r <= t_rev t) ->
   (forall pk, covered D t c res q pk) -> commit_status now t q res = (t', q') ->
   forall pk, covered D t' c [] q' pk.
 Proof. exact commit_status_covers. Qed.
 Print Assumptions C14_commit_keeps_cover.
 
-(* user writes at any moment (before the snapshot, during an in-flight operation, between round and
-   commit) keep every key covered: the written object is ahead of the cursor *)
+(* user writes of EVERY kind at any moment (before the snapshot, during an in-flight operation, between
+   round and commit) keep every key covered — including a foreign status-only write over an object whose
+   own status is Error (kind 4, `statx`), which lost the object before fix 8844901 *)
 Theorem C14_user_write_keeps_cover : forall D e kind k c res q,
-  keyed (e_tab e) -> c <= t_rev (e_tab e) -> write_safe e kind k ->
+  keyed (e_tab e) -> c <= t_rev (e_tab e) ->
   (forall pk, covered D (e_tab e) c res q pk) ->
   keyed (e_tab (do_write e kind k)) /\ c <= t_rev (e_tab (do_write e kind k)) /\
   forall pk, covered D (e_tab (do_write e kind k)) c res q pk.
@@ -37,22 +40,34 @@ Print Assumptions C14_due_retry_wakes_loop.
 
 (* a scripted operation (Update/Delete/batch entry) changes the table only through the user writes its
    hooks perform: whatever is written from inside an in-flight operation, every key stays covered *)
-Theorem C14_inflight_writes_keep_cover : forall D e snap fresh op o rev c res q, hooks_safe (e_hooks e) ->
+Theorem C14_inflight_writes_keep_cover : forall D e snap fresh op o rev c res q,
   wstate D (e_tab e) c res q ->
-  wstate D (e_tab (fst (do_call e snap fresh op o rev))) c res q /\
-  e_hooks (fst (do_call e snap fresh op o rev)) = e_hooks e.
+  wstate D (e_tab (fst (do_call e snap fresh op o rev))) c res q.
 Proof. exact do_call_wstate. Qed.
 Print Assumptions C14_inflight_writes_keep_cover.
 
 (* one iteration of processRetries on a due update item (Pop, Update with arbitrary outcome and arbitrary
-   safe writes from inside it, result recorded, Clear on success) keeps every key covered *)
+   writes from inside it, result recorded, Clear on success) keeps every key covered *)
 Theorem C14_retry_step_keeps_cover : forall D c e snap q res it e' q' res',
-  uniq q -> r_top q = Some it -> ri_del it = false -> hooks_safe (e_hooks e) ->
+  uniq q -> r_top q = Some it -> ri_del it = false ->
   wstate D (e_tab e) c res q ->
   process_single e snap false (r_pop q) res (ri_obj it) (ri_rev it) (ri_orig it) false = (e', q', res') ->
-  wstate D (e_tab e') c res' q' /\ uniq q' /\ hooks_safe (e_hooks e').
+  wstate D (e_tab e') c res' q' /\ uniq q'.
 Proof. exact retry_update_step_covers. Qed.
 Print Assumptions C14_retry_step_keeps_cover.
+
+(* fix 8844901, positive: a retry result meeting an object that still carries our Error status is always
+   written (Done, or Error + re-queued with its origRev), whatever revision a foreign writer gave it *)
+Theorem C14_retry_commits_over_foreign_write : forall fixed now t q r t' q' cur rv, keyed t ->
+  t_live t (o_pk (r_obj r)) = Some (cur, rv) -> o_kind cur = Error -> r_rev r <> r_orig r ->
+  commit_one fixed true now (t, q) r = (t', q') ->
+  t_rev t' = t_rev t + 1 /\
+  (exists o', slot_of t' (o_pk (r_obj r)) = Some (Live o' (t_rev t + 1)) /\
+              o_kind o' = (if r_ok r then Done else Error) /\
+              o_ver o' = (if rv =? r_rev r then o_ver (r_obj r) else o_ver cur)) /\
+  q' = (if r_ok r then q else r_add q (r_obj r) (t_rev t + 1) (if fixed then r_orig r else r_rev r) false now).
+Proof. exact retry_commits_over_foreign_write. Qed.
+Print Assumptions C14_retry_commits_over_foreign_write.
 
 (* nothing_forgotten — FULL STATEMENT (not proved as one theorem):
      forall cf e s (any env: any faults, hooks, time), keyed (e_tab e) -> k_cursor s <= t_rev (e_tab e) ->
@@ -72,19 +87,26 @@ Print Assumptions C14_retry_step_keeps_cover.
    with the model) and by the independent oracle !BAD:C14:*. *)
 Theorem C14_nothing_forgotten_partial : forall D c now res1 res2 t q t1 q1 t2 q2,
   keyed t -> uniq q -> NoDup (map (fun r => o_pk (r_obj r)) res1) ->
+  (forall r, In r res1 -> r_orig r <= t_rev t) ->
   (forall pk, covered D t c res1 q pk) -> commit_status now t q res1 = (t1, q1) ->
   (* whatever the retry phase does in between, if its results cover what it popped ... *)
   forall t1' q1', keyed t1' -> uniq q1' -> NoDup (map (fun r => o_pk (r_obj r)) res2) ->
+  (forall r, In r res2 -> r_orig r <= t_rev t1') ->
   (forall pk, covered D t1' c res2 q1' pk) -> commit_status now t1' q1' res2 = (t2, q2) ->
   (forall pk, covered D t1 c [] q1 pk) /\ (forall pk, covered D t2 c [] q2 pk).
 Proof. exact two_commits_cover. Qed.
 Print Assumptions C14_nothing_forgotten_partial.
 
-(* the guard write_safe above is necessary — reported defect: a foreign status-only write over an Error
-   status makes the reconciler forget the object (2 calls ever, Error forever, target empty, lwm stuck) *)
-Theorem C14_foreign_status_write_refuted : run_stuck = ([(1, 1, kind_code Error)], [], 1, 2).
+(* the code BEFORE fix 8844901 (no Error-status fallback) forgot the object after a foreign status-only
+   write over an Error status: 2 calls ever, Error forever, target empty, watermark stuck at 1 ... *)
+Theorem C14_foreign_status_write_refuted : run_stuck false = ([(1, 1, kind_code Error)], [], 1, 2).
 Proof. exact convergence_refuted_by_foreign_status_write. Qed.
 Print Assumptions C14_foreign_status_write_refuted.
+
+(* ... and the code as it is converges on the same history: third attempt succeeds, Done, target = table *)
+Theorem C14_foreign_status_write_converges : run_stuck true = ([(1, 1, kind_code Done)], [(1, 1)], 0, 3).
+Proof. exact converges_after_foreign_status_write_fixed. Qed.
+Print Assumptions C14_foreign_status_write_converges.
 
 Example C14_nonvacuous :
   forall pk, covered (fun _ _ => False) (t_insert (t_empty false) (mkObj 1 1 Pending 1)) 0 [] (r_new 10 40) pk.
